@@ -201,6 +201,12 @@ def infer(repo: Repo, f: Func, expr, depth=0):
     return None
   if isinstance(expr, ast.Name):
     if isinstance(f.node, astu.FUNC_TYPES):
+      pp = astu.pos_params(f.node)
+      if pp and expr.id == pp[0] == 'self' and 'staticmethod' not in astu.decorator_names(f.node):
+        c = repo.class_of(f)
+        if c is not None and f.qual == c[1] + '.' + f.node.name and '__slots__' in {
+            t.id for st in c[0].classes[c[1]].body if isinstance(st, ast.Assign) for t in st.targets if isinstance(t, ast.Name)}:
+          return ('cls', c[0], c[1])
       for a in f.node.args.posonlyargs + f.node.args.args + f.node.args.kwonlyargs:
         if a.arg == expr.id:
           return _ann_class(repo, mod, a.annotation)
